@@ -97,5 +97,5 @@ def _num(v):
 def jobs(tier, seed):
     G = {"timeout": 300, "generics": {"T": "i64"}}
     return [("compare_no_relative[|field|<=2^40]", compare_no_relative, {"lim": 1 << 40}, G),
-            ("duration_add[|field|<=2^30]", duration_add, {"lim": 1 << 30}, G),
-            ("duration_subtract[|field|<=2^30]", duration_add, {"lim": 1 << 30, "subtract": True}, G)]
+            ("duration_add[|field|<=2^40]", duration_add, {"lim": 1 << 40}, G),
+            ("duration_subtract[|field|<=2^40]", duration_add, {"lim": 1 << 40, "subtract": True}, G)]
